@@ -169,6 +169,28 @@ def check_downsample(case, rec):
         raise Violation("downsample-seed", "same NumPy seed gave a different subset")
 
 
+def check_downsample_uniform(case, rec):
+    """'a random sub-sample': over M seeded draws every position must be kept with probability maxseqs/N."""
+    n, m, M, how = case["n"], case["maxseqs"], case["draws"], case["as"]
+    elems = [f"CASS{i:02d}F" for i in range(n)]
+    if how == "table":
+        obj = pd.DataFrame({"CDR3B": elems, "rowid": list(range(n))}, index=[f"r{i}" for i in range(n)])
+    else:
+        obj = G.materialise(elems, how)
+    rec.note(case, 0 < m < n, [how])
+    kept = np.zeros(n)
+    np.random.seed(case["np_seed"])
+    for _ in range(M):
+        out = pyrepseq.downsample(obj, m)
+        ids = list(out["rowid"]) if how == "table" else [int(str(x)[4:6]) for x in out]
+        for i in ids:
+            kept[i] += 1
+    b = hoeffding(M, 1.0)
+    for i in range(n):
+        if abs(kept[i] / M - m / n) > b + 1e-12:
+            raise Violation("downsample-not-uniform", f"{how}: position {i} of {n} kept with frequency {kept[i] / M:.4f}, expected {m / n:.4f} (bound {b:.4f}, {M} draws)")
+
+
 # ---------------------------------------------------------------------------
 def check_powerlaw_sample(case, rec):
     size, xmin, alpha, seed = case["size"], case["xmin"], case["alpha"], case["np_seed"]
@@ -286,6 +308,13 @@ def downsample_case(draw, tier="quick"):
 
 
 @st.composite
+def downsample_uniform_case(draw, tier="quick"):
+    n = draw(st.integers(3, 10))
+    return {"n": n, "maxseqs": draw(st.integers(1, n - 1)), "draws": 4000, "np_seed": draw(st.integers(0, 2 ** 32 - 1)),
+            "as": draw(st.sampled_from(["list", "ndarray", "series_str", "table", "table"]))}
+
+
+@st.composite
 def powerlaw_case(draw, tier="quick"):
     size = draw(st.sampled_from([0, 1, 7, 100, 1000, 20000, 100000]))
     return {"size": size, "xmin": draw(st.integers(1, 50)),
@@ -317,6 +346,7 @@ SUBS = [
     Sub("subsample_reuse", check_subsample_reuse, strategy=lambda t: reuse_case(t), budget=(1500, 15000)),
     Sub("subsample_uniform", check_subsample_uniform, strategy=lambda t: uniform_case(t), budget=(48, 480)),
     Sub("downsample", check_downsample, strategy=lambda t: downsample_case(t), budget=(3000, 30000)),
+    Sub("downsample_uniform", check_downsample_uniform, strategy=lambda t: downsample_uniform_case(t), budget=(32, 320)),
     Sub("powerlaw_sample", check_powerlaw_sample, strategy=lambda t: powerlaw_case(t), budget=(800, 8000)),
     Sub("mle", check_mle, strategy=lambda t: mle_case(t), budget=(1500, 15000)),
 ]
